@@ -22,8 +22,15 @@ def build(params):
         for r in rows:
             if params['rows'][idx] > 0:
                 yield r
+    suffix = []
+    if params.get('suffix') == 'delete_first':
+        # the dump is not the last step: a later step drops a resource the dump has written
+        suffix = [DF.delete_resource('res_1')]
+    elif params.get('suffix') == 'row_fn':
+        suffix = [lambda row: None]
     with contextlib.redirect_stdout(io.StringIO()):
-        Flow(*sources, trim, DF.dump_to_path(params['out'], format=params['format'])).process()
+        Flow(*sources, trim, DF.dump_to_path(params['out'], format=params['format'],
+                                             add_filehash_to_path=bool(params.get('filehash'))), *suffix).process()
     return {'done': True}
 
 
@@ -77,17 +84,17 @@ def collapse(effects):
     return out
 
 
-def shape_run(ctx, shape, fmt, idx):
+def shape_run(ctx, shape, fmt, idx, filehash=False, suffix=None, faults=False):
     rep = ctx.report
     base = os.path.join(ctx.scratch, 'dump%d' % idx)
 
     def fresh(tag):
         d = os.path.join(base, tag)
         os.makedirs(d, exist_ok=True)
-        return d, {'rows': shape, 'format': fmt, 'out': os.path.join(d, 'out')}
+        return d, {'rows': shape, 'format': fmt, 'out': os.path.join(d, 'out'), 'filehash': filehash, 'suffix': suffix}
     d0, p0 = fresh('baseline')
     b = fsfault.run_child('harness.props.c19:build', p0, p0['out'], d0, 'base', copy_bufsize=48)
-    case0 = {'rows_per_resource': shape, 'format': fmt}
+    case0 = {'rows_per_resource': shape, 'format': fmt, 'add_filehash_to_path': filehash, 'steps_after_the_dump': suffix}
     if b['returncode'] != 0:
         raise RuntimeError('baseline dump failed: %r %s' % (b['returncode'], b['stderr']))
     N = len(b['trace'])
@@ -100,11 +107,11 @@ def shape_run(ctx, shape, fmt, idx):
         rep.fail('complete-dump-inconsistent', case0, probs)
     with open(os.path.join(p0['out'], 'datapackage.json')) as f:
         desc = json.load(f)
-    if ctx.model.available():
+    if ctx.model.available() and not filehash:
         files = [{'path': r['path'], 'chunks': ['x']} for r in desc['resources']]
         mo = ctx.model.run([{'op': 'dumpfx', 'files': files, 'desc_path': 'datapackage.json'}])[0]
         rep.corr('fs-trace', case0, project(b['trace']), collapse(mo['effects']))
-    else:
+    elif not filehash:
         rep.disagreements.append({'op': 'fs-trace', 'case': 'driver unavailable', 'real': None, 'model': None})
 
     def kill_point(k):
@@ -118,14 +125,32 @@ def shape_run(ctx, shape, fmt, idx):
         results = list(ex.map(kill_point, range(N + 1)))
     for k, rc, probs, listing in results:
         op = b['trace'][k][1:3] if k < N else ['<after-last>']
-        case = {'rows_per_resource': shape, 'format': fmt, 'kill_before_op': k, 'op': op}
-        rep.case('kill', case, key=['kill', shape, fmt, k])
+        case = {'rows_per_resource': shape, 'format': fmt, 'add_filehash_to_path': filehash, 'steps_after_the_dump': suffix, 'kill_before_op': k, 'op': op}
+        rep.case('kill', case, key=['kill', shape, fmt, filehash, suffix, k])
         rep.hist('descriptor_parseable_after_kill', probs is not None)
         if k < N and rc != -9:
             rep.notes.append('kill point %d of %s: child ended with %r' % (k, shape, rc))
             continue
         if probs:
             rep.fail('descriptor-present-before-data-complete', case, {'problems': probs, 'listing': listing})
+    if faults:
+        # an I/O error (not a crash) at every operation: the dump may fail or cope, but a descriptor that is there afterwards
+        # still vouches for every file it lists
+        def fault_point(k):
+            d, p = fresh('fault%d' % k)
+            r = fsfault.run_child('harness.props.c19:build', p, p['out'], d, 'fault', fail_at=k, copy_bufsize=48)
+            probs = inspect(p['out'])
+            listing = sorted(os.listdir(p['out'])) if os.path.isdir(p['out']) else []
+            shutil.rmtree(d, ignore_errors=True)
+            return k, r['returncode'], probs, listing
+        with concurrent.futures.ThreadPoolExecutor(max_workers=12) as ex:
+            results = list(ex.map(fault_point, range(N)))
+        for k, rc, probs, listing in results:
+            case = {'rows_per_resource': shape, 'format': fmt, 'add_filehash_to_path': filehash, 'steps_after_the_dump': suffix,
+                    'io_error_at_op': k, 'op': b['trace'][k][1:3], 'dump_reported_success': rc == 0}
+            rep.case('io-error', case, key=['fault', shape, fmt, filehash, suffix, k])
+            if probs:
+                rep.fail('descriptor-vouches-for-a-damaged-file-after-io-error', case, {'problems': probs, 'listing': listing})
     shutil.rmtree(base, ignore_errors=True)
 
 
@@ -141,6 +166,13 @@ def run(ctx):
         [([0], 'csv'), ([2], 'csv'), ([1, 0], 'json'), ([3, 1, 2], 'csv'), ([3, 1, 2], 'json'), ([40], 'csv'), ([10, 0, 25], 'json')]
     for idx, (shape, fmt) in enumerate(shapes):
         shape_run(ctx, shape, fmt, idx)
+    # the dump with hashed paths (kills and I/O errors), and the dump followed by steps that drop / edit what it wrote
+    shape_run(ctx, [3, 2], 'csv', 50, filehash=True, faults=True)
+    shape_run(ctx, [2, 2], 'csv', 51, suffix='delete_first')
+    shape_run(ctx, [2], 'json', 52, suffix='row_fn', faults=True)
+    if not ctx.quick:
+        shape_run(ctx, [3, 1, 2], 'json', 53, filehash=True, faults=True)
+        shape_run(ctx, [3, 0, 2], 'csv', 54, suffix='delete_first', faults=True)
 
     def search(disagreements):
         before = len(rep.oracle_failures)
